@@ -61,6 +61,35 @@ def skeleton_stage(ctx: Ctx):
     return failing, cex
 
 
+def split_stage(ctx: Ctx):
+    """Shapes around the blocking SQL: vertical concatenation (UNION ALL ...), the two-dataset
+    split (min/max) and the guards of its call sites (exactly two tables and link_only) - the
+    hypotheses of C01_two_dataset_split_equiv."""
+    from translators import c01_split as S
+    names, terms = [], []
+    try:
+        for n, t in S.split_terms():
+            names.append(n); terms.append(f"split_ok {t}")
+        for n, t in S.guard_terms():
+            names.append(n); terms.append(f"split_guard_ok {t}")
+        for n, t in S.concat_terms():
+            names.append(n); terms.append(f"concat_ok {t}")
+    except S.Untranslatable as e:
+        ctx.obligation("translate concat/split shapes", False, str(e))
+        ctx.violation("vertical concatenation / two-dataset split no longer has a shape the translator understands: " + str(e),
+                      {"broken": "translators/c01_split.py"}, {"untranslatable": True}, found_input=False)
+        return
+    bad, errs = ctx.eval_cases("C01_split", HEADER, terms, "fun b : bool => b", shard=100)
+    ctx.obligations += len(terms)
+    ctx.discharged += len(terms) - len(bad) if not errs else 0
+    ctx.cov["split_concat_obligations"] = names
+    for e in errs:
+        ctx.obligation("split/concat shard evaluation", False, e)
+    ctx.split_broken = [names[i] for i in bad]
+    if bad:
+        ctx.log("split/concat obligations failing:", ctx.split_broken)
+
+
 def parse_cex(out: str):
     import re
     flat = " ".join(out.split())
@@ -89,10 +118,15 @@ def run(ctx: Ctx):
     ok = ctx.proof_stage("Properties/C01.v")
     if not ok:
         ctx.violation("theorems of Properties/C01.v no longer check", {"broken": "Properties/C01.v"}, found_input=False)
+    split_stage(ctx)
     failing, cex = skeleton_stage(ctx)
     from harness import c01_x
     c01_x.report_skeleton_failures(ctx, failing, cex)
+    nviol = len(ctx.violations)
     c01_x.correspondence(ctx)
+    if getattr(ctx, "split_broken", None) and len(ctx.violations) == nviol:
+        ctx.violation("shape obligations around the blocking SQL fail: " + ", ".join(ctx.split_broken),
+                      {"broken": ctx.split_broken}, {"split_concat": True}, found_input=False)
 
 
 def replay(ctx: Ctx):
